@@ -35,7 +35,10 @@ def filter_doc(f, idx):
     return {"title": f"F{idx}", "description": "verif filter", "logsource": ls_dict(f["ls"]), "filter": body}
 
 
-def _convert(docs, seed):
+PIPE = {"name": "suffix", "priority": 10, "transformations": [{"type": "field_name_suffix", "suffix": "_x"}]}
+
+
+def _convert(docs, seed, pipe=False):
     from sigma.collection import SigmaCollection
     from sigma.exceptions import SigmaError
 
@@ -43,7 +46,9 @@ def _convert(docs, seed):
     try:
         random.seed(seed)
         coll = SigmaCollection.from_dicts(copy.deepcopy(docs))
-        b = make_backend(K)
+        from sigma.processing.pipeline import ProcessingPipeline
+
+        b = make_backend(K, ProcessingPipeline.from_dict(copy.deepcopy(PIPE))) if pipe else make_backend(K)
         r["out"] = [[cps(q) for q in b.convert_rule(rule)] for rule in sorted(coll.rules, key=lambda x: x.title)]
         r["ok"] = True
     except Exception as e:  # noqa: BLE001
@@ -59,8 +64,9 @@ def drive_case(case):
         "id": case["id"],
         "rules": case["rules"],
         "filters": case["filters"],
-        "plain": _convert(rules, 0),
-        "filtered": [_convert(rules + filters, s) for s in (11, 12)],
+        "pipe": bool(case.get("pipe")),
+        "plain": _convert(rules, 0, bool(case.get("pipe"))),
+        "filtered": [_convert(rules + filters, s, bool(case.get("pipe"))) for s in (11, 12)],
     }
 
 
@@ -91,7 +97,7 @@ def run(tier: str, seed: int) -> int:
         rule="TLC (Gen_C11) enumerates 6 rule conditions (identifiers, selectors, them, keyword-prefixed names) x 7 filter "
         "conditions (identifiers, not, them, prefix/suffix patterns; filter detections named sel, 1x, ax, And, notable - "
         "overlapping with the rule's) x 6 log-source relations x 5 rule-list kinds (name, id, any, empty, other rule), "
-        "two-condition rules, stacked filters (quick: 150 sampled) and a family with an underscore-leading filter "
+        "two-condition rules, two rules targeted by one filter and converted through a field-renaming pipeline, stacked filters (quick: 150 sampled) and a family with an underscore-leading filter "
         "detection; every pair is converted under two seeds of the random prefix, with a bystander rule; all pairs are "
         "distinct and non-trivial",
         samples=samples,
